@@ -153,12 +153,15 @@ theorem step_outer (k k' : List K) (s s' : State) (h : step k s = some (k', s'))
           exact outerDesc_mono _ _ _ (execSimple_adv _ _ _)
       | redir rs c =>
         simp only [step] at h
-        split at h <;> (simp only [Option.some.injEq, Prod.mk.injEq] at h; rw [← h.1, ← h.2])
-        · simp only [outerDesc]
+        split at h
+        · simp only [Option.some.injEq, Prod.mk.injEq] at h; rw [← h.1, ← h.2]
+          simp only [outerDesc]
           rcases performIn_first rs s with ⟨h1, h2⟩ | hh
           · rw [h1, h2]; exact Adv.refl _
           · rw [hh]; exact Adv.refl _
-        · rw [undo_perform]; exact Adv.refl _
+        · split at h <;> (simp only [Option.some.injEq, Prod.mk.injEq] at h; rw [← h.1, ← h.2])
+          · rw [undo_perform, outerDesc_dropGuards]; exact Adv.refl _
+          · rw [undo_perform]; exact Adv.refl _
       | ifc c t e he =>
         simp only [step, Option.some.injEq, Prod.mk.injEq] at h; rw [← h.1, ← h.2, outerDesc_cmds]; exact Adv.refl _
       | loop u c b =>
@@ -223,7 +226,7 @@ theorem runK_outer (n : Nat) (k : List K) (s : State) (hfin : (runK n k s).2 = t
           cases a with
           | cmd c =>
             cases c with
-            | redir rs c => simp only [step] at hst; split at hst <;> simp at hst
+            | redir rs c => simp only [step] at hst; split at hst <;> (try split at hst) <;> simp at hst
             | simple ws here => simp [step] at hst
             | ifc c t e he => simp [step] at hst
             | loop u c b => simp [step] at hst
